@@ -786,7 +786,10 @@ func (c *LinkLayerDiscovery) SerializeTo(b gopacket.SerializeBuffer, opts gopack
 		}
 		idLen := ((uint16(v.Type) << 9) | v.Length)
 		binary.BigEndian.PutUint16(vb[0:2], idLen)
-		copy(vb[2:], v.Value)
+		// zero whatever Value does not cover, in case the memory is dirty
+		for i := 2 + copy(vb[2:], v.Value); i < len(vb); i++ {
+			vb[i] = 0
+		}
 	}
 
 	vb, err = b.AppendBytes(2) // End Tlv, 2 bytes
